@@ -144,6 +144,17 @@ def main():
                     discharged = max(discharged, 0)
                 if not any("Properties_%s" % pid in b for b in broken):
                     broken.append("Props/Properties_%s.v does not check: %s" % (pid, " ".join(plog.split())[-400:]))
+    # thorough tier: the independent checker re-checks the compiled property file and everything it depends on
+    coqchk_res = None
+    if not a.no_coq and tier == "thorough" and not broken:
+        t1 = time.time()
+        rc, out = B.run(["timeout", "3000", "coqchk", "-silent", "-o", "-Q", "theories", "SB", "SB.Props.Properties_%s" % pid], cwd=B.COQ, timeout=3100)
+        m = re.search(r"\* Axioms:(.*?)\n\s*\n\* Constants", out, flags=re.S)
+        ax = [l.strip() for l in (m.group(1) if m else "").split("\n") if l.strip() and l.strip() != "<none>"]
+        coqchk_res = {"exit": rc, "wall_s": round(time.time() - t1, 1), "axioms_of_all_loaded_libraries": ax,
+                      "type_in_type": "relying on type-in-type: <none>" in out, "unsafe_fix": "unsafe (co)fixpoints: <none>" in out}
+        if rc != 0:
+            broken.append("coqchk rejects Props/Properties_%s.vo: %s" % (pid, " ".join(out.split())[-300:]))
     hits = B.forbidden_scan()
     if hits:
         broken.append("forbidden construct in the development: " + "; ".join(hits[:5]))
@@ -221,6 +232,7 @@ def main():
     samples = []
     outcome_hist = {}
     ndiff = 0
+    all_diffs = []
     for (case, klass), om, oi in zip(cases, out_m, out_i):
         if oi == "skipped-after-timeouts":
             continue
@@ -255,10 +267,46 @@ def main():
             known_hit.setdefault(matched["id"], []).append(case)
             continue
         ndiff += 1
-        if len(violations) < 3:
-            violations.append(("disagreement", d, {"cases": [case], "model": om, "impl": oi, "class": klass, "key": key}))
+        all_diffs.append(("disagreement", d, {"cases": [case], "model": om, "impl": oi, "class": klass, "key": key}))
+    # report the three shortest failing cases (minimisation by selection: generators emit many sizes of each shape)
+    all_diffs.sort(key=lambda v: len(v[2]["cases"][0]))
+    violations.extend(all_diffs[:3])
 
-    # a broken proof obligation without a disagreement is still reported
+    # a broken proof obligation (translator, proof, extraction) is not by itself a violation: look harder for a
+    # concrete failing input -- a second, larger stream (the thorough generator under another seed, capped) through
+    # model, implementation and the property's oracle -- before reporting "no-failing-input-found"
+    search_note = None
+    if broken and not violations and not a.replay:
+        import itertools
+        t1 = time.time()
+        extra = list(itertools.islice(gen.cases(random.Random(seed + 1), "thorough"), int(os.environ.get("VERIF_SEARCH_CASES", "20000"))))
+        xl = [c for c, _ in extra]
+        try:
+            _, _, xm = run_cases(model, xl, pid + ".search.model")
+            _, _, xi = run_cases(impl, xl, pid + ".search.impl", args=getattr(gen, "IMPL_ARGS", ()), env=impl_env)
+        except Exception as e:     # the search is best effort
+            xm, xi = [], []
+            search_note = "search could not run: %s" % e
+        found = 0
+        for (case, klass), om, oi in zip(extra, xm, xi):
+            if oi in ("skip", "skipped-after-timeouts", "timeout") or oi.startswith("crash "):
+                d = None if oi in ("skip", "skipped-after-timeouts") else "implementation %s (model: %s)" % (oi, om[:120])
+                if d and hasattr(gen, "abnormal_ok") and gen.abnormal_ok(case, om, oi):
+                    d = None
+            else:
+                d = gen.compare(case, om, oi)
+                if d is None and hasattr(gen, "oracle"):
+                    d = gen.oracle(case, klass, om, oi)
+            if d is None:
+                continue
+            key = gen.finding_key(case, om, oi, d) if hasattr(gen, "finding_key") else d
+            if any(re.search(k["match"], key) for k in known):
+                continue
+            found += 1
+            if len(violations) < 3:
+                violations.append(("disagreement-found-by-search", d, {"cases": [case], "model": om, "impl": oi, "class": klass, "key": key}))
+        search_note = search_note or "searched %d further cases in %.0fs: %d failing" % (len(xi), time.time() - t1, found)
+        ndiff += found
     if broken and not violations:
         violations.append(("obligation", "; ".join(broken)[:1500], {"cases": [], "broken": broken, "no_failing_input": True}))
 
@@ -307,6 +355,7 @@ def main():
             "theorems": [{"name": n, "axioms": axioms.get(n, None)} for n, _ in obligations],
             "axioms_used": all_ax,
             "broken_obligations": broken,
+            "failing_input_search": search_note,
             "other_build_notes": notes,
             "evaluations": len(lines),
             "distinct_nontrivial": len(nontrivial),
@@ -319,6 +368,7 @@ def main():
             "known_findings_hit": {k: len(v) for k, v in known_hit.items()},
             "explanation": getattr(gen, "EXPLANATION", ""),
             "kernel_cross_check": xc,
+            "coqchk": coqchk_res,
         },
         "assumptions": list(getattr(gen, "ASSUMPTIONS", [])) + ["axioms (Print Assumptions): " + (", ".join(all_ax) if all_ax else "none")],
         "wall_s": round(wall, 2),
